@@ -318,7 +318,7 @@ _RULE_EXTRA = {
     "C01": "; 1 in 6 small tables go through the real command line instead (`wrgl commit` then `wrgl export` on a badger + SQLite repository; the exported CSV must hold the model's stored rows in order); plus one size-boundary table per run (1 044 481 rows = 4097 blocks, 8 workers), read back in aggregate",
     "C03": "; plus the size-boundary table (4097 blocks)",
     "C05": "; 1 in 4 keyed tuples with column-changing branches (add / remove / move columns per branch, shared new names), judged by column name; 1 in 4 with an all-empty key",
-    "C06": "; block indices built by IndexBlock (0..5 or 255 rows, keyed or keyless): written, read, re-written, stored, fetched, compared with the Lean codec; table profiles of real ingests decoded and re-encoded (no Lean model of the profile: re-encoding clauses only)",
+    "C06": "; block indices built by IndexBlock (0..5 or 255 rows, keyed or keyless): written, read, re-written, stored, fetched, compared with the Lean codec; table profiles of real ingests decoded and re-encoded (no Lean model of the profile: re-encoding clauses only); 1 in 32 a history of 2..8 Save*/Delete* calls on one store that writes keys again (same content; other content under the same table sum for table index / profile), read back after every step and dumped at the end, against the finite map of Model/ObjStore.lean; 1 in 64 a stored table whose index and profile keys hold another table's / an older profiler's / damaged / the same / no bytes, refreshed by IndexTable + ProfileTable and compared with the same refresh onto absent keys",
     "C07": "; 1 in 5 extra tables header-only",
     "C11": "; walks from 3..5 start points with a repeated one",
     "C13": "; every write position also as a single injected write error (the operation continues): consistency, error reported or harmless, re-run",
@@ -346,7 +346,7 @@ for _k, _v in _WIDEN_N.items():
 _LEVEL_EXTRA = {
     "C09": " Also: C09_tables_within_depth (the receiver ends with the table of every commit of the want's history within the requested depth, given that commons' tables are present at the receiver) and C09_transfer_closed_multi (several wants in one exchange).",
     "C05": " The per-cell decision chain is additionally tied to the source by a regenerated guard table: extract/paths.go lists the guards in front of every unresolveCol(i) of tryResolve, and C05_unresolve_table_is_model proves over all 216 situations of a step that the table fires exactly when the model's cellStep marks the column unresolved. Column-changing branches: the by-name resolution `resolveRecCols` used for them is proved to coincide with the same-columns resolution when all tables share the base's columns (C05_cols_model_extends_same).",
-    "C06": " Block index codec: round trip, re-encoding and injectivity (C06_blockIndex_*); the pre-allocation cap of the decoders is extracted as never bounding a read loop.",
+    "C06": " Block index codec: round trip, re-encoding and injectivity (C06_blockIndex_*); the pre-allocation cap of the decoders is extracted as never bounding a read loop. The store as a function of its history: a save reads back whatever the key held, other keys are untouched, delete unbinds, the same content again changes nothing (C06_save_reads_back, C06_store_op_keeps_other_keys, C06_delete_unbinds, C06_save_again_changes_nothing, C06_store_keys_distinct).",
     "C08": " Across wants: C08_all_wants (one whole call of enqueueWants: closed for every non-pending want, acceptable at every position, sound). Across the round's bookkeeping: C08_accepts_reachable_wants and C08_process_sound (Process accepts exactly the wants reachable from refs whatever the timestamps; every ack is a have that is an ancestor of a ref).",
     "C11": " Walks from any list of start points, repeats included, pop every ancestor exactly once (C11_walk_multi_each_once).",
     "C14": " Discard interrupted at any store operation touches no branch, reports success only when everything is gone, and completes on re-run (C14_discard_fault).",
